@@ -5,6 +5,14 @@ from vlib.runner import Spec, Suite
 HARNESS = ("h_signal", ["h_signal.cpp"], {})
 
 FLAVOURS = ["val", "rv", "lv", "conv"]
+# obj cases (signal<reading>): the same four overloads with a value whose construction THROWS.  val = const lvalue through the
+# in-place overload (copy), rv = rvalue overload (move), conv = in-place construction from arguments; lvx = lvalue reference to
+# an object that cannot be copied: nothing is constructed, the call cannot fail.
+FAILING = ["valx", "rvx", "convx"]
+
+
+def must_fail(obj, fl):
+    return obj and fl in FAILING
 
 
 def parse_line(line):
@@ -29,8 +37,12 @@ class Prop:
     next collector call / before disconnection (the test broke the documented contract) is `tainted`: the property
     then only demands that it is resumed exactly once with *some* emitted value or the cancellation."""
 
-    def __init__(self, void, hook=False):
+    def __init__(self, void, hook=False, obj=False):
         self.void = void
+        self.obj = obj
+        self.failed = 0               # collector calls that threw
+        self.failed_waiting = 0       # listeners (coroutines + callbacks) waiting at such a call
+        self.dead_reads = 0
         self.hook_pending = hook      # no signal yet: created by the first listener's hook_up()
         self.alive = True
         self.hs = [True]
@@ -99,7 +111,10 @@ class Prop:
             if e != exp:
                 self.msgs.append("wrong-value: L%d released with %s observed %s" % (i, exp, e))
         else:
-            if e != "canceled" and not (e.startswith("v") and int(e[1:]) in self.emitted):
+            # outside the contract a listener may even be handed the copy that a later failed by-value call destroyed
+            if e == "vdead":
+                self.dead_reads += 1
+            elif e != "canceled" and not (e.startswith("v") and e[1:].isdigit() and int(e[1:]) in self.emitted):
                 self.msgs.append("wrong-value: L%d observed %s which was never emitted" % (i, e))
         if e == "canceled":
             l["state"] = "done"
@@ -150,6 +165,19 @@ class Prop:
             self.ls[i]["tainted"] = False
         return w
 
+    def emit_failed(self, fl):
+        """one collector call that threw (its value could not be constructed): a failed emission delivers nothing and loses
+        nobody - whoever was waiting is still waiting (nothing to do here: any observation made during this operation is
+        flagged as `duplicate` at the end of the operation, anybody lost shows at the next call / at disconnection).  It is a
+        collector call all the same: listeners of an earlier call that have not been flushed are outside the contract."""
+        if self.taint_outstanding():
+            self.unflushed_emits += 1
+        self.failed += 1
+        self.failed_waiting += len(self.waiting("L")) + len(self.waiting("C"))
+        if not must_fail(self.obj, fl):
+            self.msgs.append("missed: a collector call (%s) whose value can be constructed failed with an exception: nothing was "
+                             "delivered to the %d waiting listener(s)" % (fl, len(self.waiting("L")) + len(self.waiting("C"))))
+
     def disconnect(self, evs):
         """the last handle is gone; returns the coroutine listeners that have to be resumed with the cancellation"""
         self.taint_outstanding()
@@ -185,8 +213,8 @@ class Prop:
                 keep = k == "hlisten"
                 i = self.new_listener(w[1])
                 self.await_emitter(i, evs)
-                m = re.match(r"rel=([\d,]+)$", head[2]) if len(head) > 2 else None
-                counts = [int(x) for x in m.group(1).split(",")] if m else []
+                m = re.match(r"rel=([\d,!]+)$", head[2]) if len(head) > 2 else None
+                counts = m.group(1).split(",") if m else []
                 queued, n = [], 0
                 for tok in w[2:]:
                     if tok == "keep":
@@ -194,7 +222,10 @@ class Prop:
                     elif tok == "drop":
                         keep = False
                     elif tok.count(":") == 2:
-                        queued += self.emit(int(tok.split(":")[2]), evs, counts[n] if n < len(counts) else None)
+                        if n < len(counts) and counts[n] == "!":
+                            self.emit_failed(tok.split(":")[1])
+                        else:
+                            queued += self.emit(int(tok.split(":")[2]), evs, int(counts[n]) if n < len(counts) and counts[n].isdigit() else None)
                         n += 1
                 if not keep:
                     queued += self.drop_one(0, evs)
@@ -245,7 +276,9 @@ class Prop:
                     self.msgs.append("callback-release: C%d was released while it is connected and waiting (the connection does "
                                      "not own its callback: it went away with the caller's object)" % i)
         elif k == "emit":
-            if self.alive:
+            if self.alive and len(head) > 1 and head[1] == "threw":
+                self.emit_failed(w[1])        # no suspend point was returned: nothing is held
+            elif self.alive:
                 m = re.match(r"rel=(\d+)$", head[1]) if len(head) > 1 else None
                 rel = self.emit(int(w[2]), evs, int(m.group(1)) if m else None)
                 if len(w) > 3 and w[3] == "hold":
@@ -269,6 +302,9 @@ class Prop:
                 if not self.alive:
                     continue
                 mode, fl, v = tok.split(":")
+                if n < len(counts) and counts[n] == "!":
+                    self.emit_failed(fl)
+                    continue
                 cnt = int(counts[n]) if n < len(counts) and counts[n].isdigit() else None
                 rel = self.emit(int(v), evs, cnt)
                 queued += rel
@@ -314,7 +350,7 @@ class Prop:
 
 def run_prop(case, out):
     hdr = case["lines"][0].split()
-    p = Prop(void=len(hdr) > 3 and hdr[3] == "void", hook=len(hdr) > 4 and hdr[4] == "hook")
+    p = Prop(void=len(hdr) > 3 and hdr[3] == "void", hook=len(hdr) > 4 and hdr[4] == "hook", obj=len(hdr) > 3 and hdr[3] == "obj")
     for opl, line in zip(case["lines"][1:], out):
         w = opl.split()
         head, evs, kinds = parse_line(line)
@@ -337,14 +373,18 @@ class SigSuite(Suite):
     chunk = 40
     nontrivial_rule = "at least one value delivered to a waiting listener and at least one cancellation"
 
-    def gen_case(self, rng, big=False):
+    def gen_case(self, rng, big=False, kind=None):
         void = rng.random() < 0.25
         flushed = rng.random() < 0.6
         hook = rng.random() < 0.12
         nops = rng.randint(4, 12) if rng.random() < 0.3 else rng.randint(10, 40)
         if big:
             nops = rng.randint(40, 120)
-        lines = ["case 0 sig %s%s" % ("void" if void else "int", " hook" if hook else "")]
+        if kind is None:
+            kind = "void" if void else "obj" if rng.random() < 0.45 else "int"
+        void, obj = kind == "void", kind == "obj"
+        pfail = rng.choice([0.1, 0.25, 0.25, 0.5]) if obj else 0.0
+        lines = ["case 0 sig %s%s" % (kind, " hook" if hook else "")]
         v = [10]
         st = {"nlist": 0, "dead": False}
         gate_ids = []       # listeners whose script contains a gate
@@ -367,6 +407,12 @@ class SigSuite(Suite):
             return "".join(rng.choice("rrrgx") for _ in range(rng.randint(1, 6)))
 
         def flav():
+            if obj:
+                r = rng.random()
+                if r < pfail:
+                    return rng.choice(FAILING)
+                if r < pfail + 0.05:
+                    return "lvx"
             return rng.choice(FLAVOURS)
 
         def listen(kind="listen"):
@@ -511,10 +557,12 @@ class SigSuite(Suite):
         ops, flav = {}, {}
         st = {"cases_void": 0, "cases_int": 0, "values_delivered": 0, "cancellations": 0, "callback_frees": 0,
               "emits_with_unflushed_listeners": 0, "cases_with_contract_violation": 0, "max_listeners": 0,
-              "thread_subscribed_listeners": 0, "bad_ops": 0}
+              "thread_subscribed_listeners": 0, "bad_ops": 0, "cases_obj": 0, "failed_emissions": 0,
+              "listeners_waiting_at_failed_emissions": 0, "cases_with_failed_emission_then_delivery_or_cancel": 0,
+              "destroyed_value_reads_outside_contract": 0}
         for c in cases:
             hdr = c["lines"][0].split()
-            st["cases_void" if len(hdr) > 3 and hdr[3] == "void" else "cases_int"] += 1
+            st["cases_void" if len(hdr) > 3 and hdr[3] == "void" else "cases_obj" if len(hdr) > 3 and hdr[3] == "obj" else "cases_int"] += 1
             for l in c["lines"][1:-1]:
                 w = l.split()
                 ops[w[0]] = ops.get(w[0], 0) + 1
@@ -545,6 +593,10 @@ class SigSuite(Suite):
                 st["emits_with_unflushed_listeners"] += p.unflushed_emits
                 st["cases_with_contract_violation"] += 1 if p.unflushed_emits else 0
                 st["max_listeners"] = max(st["max_listeners"], p.next_id)
+                st["failed_emissions"] += p.failed
+                st["listeners_waiting_at_failed_emissions"] += p.failed_waiting
+                st["destroyed_value_reads_outside_contract"] += p.dead_reads
+                st["cases_with_failed_emission_then_delivery_or_cancel"] += 1 if p.failed_waiting and (p.deliveries or p.cancels) else 0
             except Exception:
                 pass
         st["ops"] = ops
@@ -920,8 +972,10 @@ class C15(Spec):
     level_text = ("Lean 4 theorems over an executable model of signal<T>'s shared state (awaiter chain, current-value pointer, owned "
                   "copy, strong-reference count) with scripted coroutine listeners and connected callbacks: broadcast (every waiting "
                   "listener, exactly once, that value), no-miss for re-awaiting listeners, callback call/release accounting, disconnect "
-                  "wakes all, awaiting a disconnected emitter fails at once - for every operation list under the documented Flushed "
-                  "contract, the counting and callback theorems for every operation list without it, plus the negative lemma; the closed "
+                  "wakes all, awaiting a disconnected emitter fails at once, and a by-value collector call whose value construction "
+                  "throws (in-place / const lvalue / rvalue overloads) delivers nothing and loses nobody: the next call and the "
+                  "disconnection reach everybody who was waiting, the stale _cur_val is never read - for every operation list "
+                  "(with any number of failed calls anywhere) under the documented Flushed contract, the counting and callback theorems for every operation list without it, plus the negative lemma; the closed "
                   "forms used in the proofs are proved equal to the awaiter-by-awaiter loops the driver executes; the model is tied to "
                   "signal.h by running both on generated histories (sequential: every line diffed; threads under a deterministic baton "
                   "scheduler: linearised trace through the model) and property oracles run on every implementation trace")
